@@ -1,4 +1,4 @@
-(* C19 — unique indexes.  doUpsert admits a write only when no live entry exists under the value
+(* C19 — unique indexes.  doUpsert allows a write only when no live entry exists under the value
    (or the document keeps its own tuple, or -- inside one operation -- no earlier document of the
    operation took the tuple).  Consequence, for every history that leaves the typed fields alone:
    no two live documents share the tuple of a unique index. *)
@@ -151,8 +151,8 @@ Definition U (st : state) : Prop :=
   forall a b, In a (lives (st_docs st)) -> In b (lives (st_docs st)) -> l_id a <> l_id b ->
     tuple_eqb (s_nz (st_sch st)) (tup st ix a) (tup st ix b) = false.
 
-(* an admitted upsert either keeps the document's tuple or found no live entry under the tuple *)
-Lemma uniq_checks_ix_admitted st ins id r ixs : forall pd pd',
+(* an allowed upsert either keeps the document's tuple or found no live entry under the tuple *)
+Lemma uniq_checks_ix_allowed st ins id r ixs : forall pd pd',
   uniq_checks_ix st ins id r ixs pd = Some pd' ->
   forall ix, In ix ixs -> ix_unique ix = true ->
     let t := tuple_of (st_sch st) (ix_cols ix) id r in
@@ -179,8 +179,8 @@ Proof.
   unfold find_doc. intros H. apply find_some in H as [H1 H2]. split; auto. apply bytes_eqb_eq; auto.
 Qed.
 
-(* a live row of another document has a different tuple than the admitted one *)
-Lemma admitted_distinct st ix id r b :
+(* a live row of another document has a different tuple than the allowed one *)
+Lemma allowed_distinct st ix id r b :
   U st -> In ix (s_indexes (st_sch st)) -> ix_unique ix = true ->
   let t := tuple_of (st_sch st) (ix_cols ix) id r in
   ((exists d, find_doc (st_docs st) id = Some d /\ holds_now (st_sch st) (ix_cols ix) t d = true) \/
@@ -217,15 +217,15 @@ Proof.
   inversion H; subst; clear H. simpl. split; auto. split.
   2:{ unfold ND. simpl. apply put_version_nodup. exact HN. }
   intros ix Hix Un a b Ha Hb Hab. simpl in *.
-  pose proof (uniq_checks_ix_admitted st ins id r _ pd pd' UC ix Hix Un) as AD.
+  pose proof (uniq_checks_ix_allowed st ins id r _ pd pd' UC ix Hix Un) as AD.
   apply lives_put_in in Ha. apply lives_put_in in Hb.
   destruct Ha as [Ha|(pa & ra & Ea & ->)]; destruct Hb as [Hb|(pb & rb & Eb & ->)].
   - apply (HU ix Hix Un a b Ha Hb Hab).
   - inversion Eb; subst. simpl in Hab.
-    apply (admitted_distinct st ix id rb a HU Hix Un AD Ha Hab).
+    apply (allowed_distinct st ix id rb a HU Hix Un AD Ha Hab).
   - inversion Ea; subst. simpl in Hab.
     apply tuple_neq_sym.
-    apply (admitted_distinct st ix id ra b HU Hix Un AD Hb). congruence.
+    apply (allowed_distinct st ix id ra b HU Hix Un AD Hb). congruence.
   - simpl in Hab. congruence.
 Qed.
 
